@@ -17,7 +17,11 @@ R22d writer/reader markers: the literal markers that RegexNamedArgumentParser.ge
      required order.
 R22e decode-before-split: no `.split(c)` is applied to the result of unescape(...) for a character c
      that re.escape escapes (an option containing c would be reported as two options).
-Decides the template languages over the abstract alphabet; delivery of concrete strings is not decided.
+R22f delivered unchanged: RegexNamedArgumentParser.parse / validate apply the pattern they were constructed with (self.regex,
+     or a pattern compiled from it in the constructor) to their own parameter, neither rewritten (opstatic/matchsite.py), and
+     parse returns the groupdict of that very match - a normalisation of text or pattern before matching delivers groups cut
+     from a different string and widens the accepted language.
+Decides the template languages over the abstract alphabet and that matching is applied to the untouched argument.
 """
 from __future__ import annotations
 
@@ -114,6 +118,40 @@ def run(ctx) -> None:
     ctx.floor("R22c", 3)
     # ---- R22d
     rp = prog.cls("openpectus.lang.exec.uod:RegexNamedArgumentParser")
+    # ---- R22f delivered unchanged: the parser applies the pattern it was constructed with to the argument it was given
+    ctx.rule("R22f", "number, unit and option are cut out of the argument exactly as written")
+    from ..matchsite import match_site
+    sites = {}
+    for mname in ("parse", "validate"):
+        fm = rp.methods.get(mname)
+        if fm is None:
+            raise AnchorError(f"RegexNamedArgumentParser.{mname} missing")
+        ctx.analysed(fm)
+        st = match_site(fm, f"RegexNamedArgumentParser.{mname}")
+        sites[mname] = st
+        inst = f"RegexNamedArgumentParser.{mname}: the given argument is matched against the given pattern, both untouched"
+        if st["subject"] == "param" and st["pattern"] in ("raw", "compiled"):
+            ctx.ok("R22f", inst, {"rule": "R22f", "mode": st["mode"], "pattern": st["pattern"]})
+        else:
+            what = st["subject"] if st["subject"] != "param" else st["pattern"]
+            ctx.fail("R22f", fm, st["call"], inst, f"the text or the pattern is rewritten before matching ({what.split(':', 1)[-1]}): the groups are "
+                     "cut out of the rewritten text, so the command does not receive the number/unit/option as written, and arguments "
+                     "outside the documented language can be accepted")
+    pf = rp.methods["parse"]
+    rets = [r.value for r in walk_no_nested(pf.node) if isinstance(r, ast.Return) and r.value is not None
+            and not (isinstance(r.value, ast.Constant) and r.value.value is None)]
+    from ..util import local_single_defs
+    mdefs = local_single_defs(pf)
+    good = bool(rets)
+    for r in rets:
+        if not (isinstance(r, ast.Call) and call_attr(r) == "groupdict" and isinstance(r.func.value, ast.Name)
+                and mdefs.get(r.func.value.id) is sites["parse"]["call"]):   # (the match itself, or the helper call returning it)
+            good = False
+    inst = "RegexNamedArgumentParser.parse returns the groupdict of that match"
+    if good:
+        ctx.ok("R22f", inst)
+    else:
+        ctx.fail("R22f", pf, pf.node, inst, f"returns {[norm(r) for r in rets]}: the delivered groups are not those of the match")
     both = templates["exclusive and additive"].replace(E_, "E").replace(A_, "A")
     kind, num_tpl = partial_eval(prog, rn, {"units": Sym(U_), "non_negative": False, "int_only": False})
     markers = {"get_units": (num_tpl, ["<number_unit>"]), "get_exclusive_options": (both, ["<option>(", "|("]),
